@@ -37,7 +37,7 @@ for _ in range(200):
 for tier in ('quick',):
     for _, case in c20.enumerate_cases(tier)[::9]:
         img, t = c20.make_image(case, 0)
-        r = c20.ell_radius(c20.SHAPE, t)
+        r = c20.ell_radius(c20.frame_of(case)['shape'], t)
         o = np.argsort(r.ravel())
         check(np.all(np.diff(img.ravel()[o]) <= 0), 'image monotone in r_ell')
         check(np.isfinite(img).all() and (img > 0).all(), 'image finite positive')
@@ -53,6 +53,10 @@ for growth in c20.GROWTH:
         case = dict(c20.DEFAULT, growth=growth, range=rg)
         s = c20.expected_smas(case)
         check(any(abs(v - 10.0) < 1e-12 for v in s), 'sma0 in sequence')
+        big = dict(case, frame='large', range=c20.RANGE_LARGE)
+        sb = c20.expected_smas(big)
+        check(any(abs(v - 30.0) < 1e-12 for v in sb) and all(25.0 < v < 50.0 for v in sb)
+              and all(b > a for a, b in zip(sb, sb[1:])), 'large-frame sequence')
         check(all(b > a for a, b in zip(s, s[1:])), 'sequence increasing')
         if rg != 'default':
             mn, mx = map(float, rg.split('-'))
@@ -72,7 +76,27 @@ check(abs(c20.pa_diff(0.001, math.pi - 0.001) - 0.002) < 1e-12, 'pa_diff mod pi'
 check(c20.same_angle(1e-13, 2 * math.pi - 1e-13, 1e-12) and not c20.same_angle(0.5, 0.5 + 1e-9, 1e-12), 'same_angle')
 
 # 6. lattice sizes are what the module documents
-check(len(c20.enumerate_cases('quick')) == 220 and len(c20.enumerate_cases('thorough')) == 2416, 'lattice sizes')
+check(len(c20.enumerate_cases('quick')) == 252 and len(c20.enumerate_cases('thorough')) == 2752, 'lattice sizes')
+
+# 7. share of the sectors that hold enough pixels for the area integrators (sector_fraction), against counts measured
+#    with counters inside the integrators on the pinned tree (mean mode, step 0.1; threshold 7 = "more than 6 pixels"):
+#    eps 0.8: 0.23 / 0.28 / 0.33 / 0.40 / 0.41 of the sectors at sma 31.38 / 34.52 / 37.97 / 41.77 / 45.95; round
+#    isophotes: none at sma 21.4, (nearly) all from sma 28.5
+geo = dict(c20.DEFAULT, mode='mean')
+for sma, meas in ((31.38, 0.23), (34.52, 0.28), (37.97, 0.33), (41.77, 0.40), (45.95, 0.41)):
+    check(abs(c20.sector_fraction(sma, 0.8, geo, thr=7.0) - meas) <= 0.05, f'sector_fraction eps 0.8 sma {sma}')
+check(c20.sector_fraction(21.44, 0.2, geo, thr=7.0) == 0.0 and c20.sector_fraction(28.53, 0.2, geo, thr=7.0) == 1.0,
+      'sector_fraction eps 0.2')
+check(c20.sector_fraction(40.0, 0.2, dict(geo, growth='lin1.0')) == 0.0, 'linear step 1: sectors of ~1 px')
+t2 = {'eps': 0.2}
+check(not c20.area_integrated(27.27, geo, t2) and c20.area_integrated(30.0, geo, t2)
+      and not c20.area_integrated(30.0, dict(geo, mode='bilinear'), t2), 'area_integrated class')
+# every quick fit of the block 'area' has area-integrated isophotes in its well-sampled expected sequence
+for name, case in c20.enumerate_cases('quick'):
+    if name == 'area':
+        t = c20.truth_geometry(case, 0)
+        n = sum(1 for v in c20.expected_smas(case) if c20.well_sampled(v, case, t) and c20.area_integrated(v, case, t))
+        check(n >= 4, f'area block: {n} area-integrated isophotes expected')
 
 if fail:
     print('FAIL', sorted(set(fail)))
